@@ -8,6 +8,7 @@ import (
 	"flag"
 	"fmt"
 	"os"
+	"path/filepath"
 	"regexp"
 	"strconv"
 	"strings"
@@ -170,6 +171,7 @@ func cmdCheckCases(args []string) {
 	fs := flag.NewFlagSet("check-cases", flag.ExitOnError)
 	n := fs.Int("n", 60, "number of doCheck cases")
 	na := fs.Int("na", 40, "number of accept-sequence cases")
+	nf := fs.Int("nf", 0, "number of doCheck cases run in a directory with fail files")
 	seed := fs.Uint64("seed", 1, "generator seed")
 	prof := fs.String("profile", "pure", "program profile")
 	out := fs.String("out", "", "output .v file")
@@ -180,7 +182,7 @@ func cmdCheckCases(args []string) {
 	stats := map[string]int{}
 	var b strings.Builder
 	fmt.Fprintf(&b, "(* GENERATED by /verif/harness check-cases -seed %d -profile %s *)\n", *seed, *prof)
-	b.WriteString("Require Import Rapid.Model.Base Rapid.Model.Syntax Rapid.Model.Pexp Rapid.Model.Groups Rapid.Model.Corr Rapid.Model.CorrEngine Rapid.Generated.GeomTable.\n")
+	b.WriteString("Require Import Rapid.Model.Base Rapid.Model.Syntax Rapid.Model.Pexp Rapid.Model.Groups Rapid.Model.Corr Rapid.Model.Shrink Rapid.Model.CorrEngine Rapid.Generated.GeomTable.\n")
 	b.WriteString("Open Scope N_scope.\n")
 	fmt.Fprintf(&b, "Definition %s_dc : list dc_case := [\n", *name)
 	first := true
@@ -229,6 +231,7 @@ func cmdCheckCases(args []string) {
 	fmt.Fprintf(&b, "Definition %s_dc_M := Eval vm_compute in dc_mismatches geom_tab %s_dc.\nPrint %s_dc_M.\n", *name, *name, *name)
 
 	// accept sequences
+	var accFails []map[string]any
 	fmt.Fprintf(&b, "Definition %s_acc : list acc_case := [\n", *name)
 	first = true
 	made := 0
@@ -266,6 +269,17 @@ func cmdCheckCases(args []string) {
 			if acc {
 				res = "AccYes"
 				stats["acc_accepted"]++
+				// C05 on the implementation: an accepted candidate fails at the original site and is strictly smaller
+				c0, id0 := canonSite(e)
+				c1, id1 := canonSite(err)
+				if err.Kind == "" || err.Kind == "invalid" || c0 != c1 || id0 != id1 {
+					accFails = append(accFails, map[string]any{"property": "C05", "what": "minimization moved to a test case that fails at a different site",
+						"program": p.Root.coq(), "seed": s, "candidate": cand, "original": oresCoq(e), "accepted": oresCoq(err), "index": i, "cmd": "/verif/build/harness " + strings.Join(os.Args[1:], " ")})
+				}
+				if rapid.VerifCompareData(st.Data, cur.Data) >= 0 {
+					accFails = append(accFails, map[string]any{"property": "C05", "what": "an accepted minimization step is not strictly smaller",
+						"program": p.Root.coq(), "seed": s, "candidate": cand, "before": cur.Data, "after": st.Data, "index": i, "cmd": "/verif/build/harness " + strings.Join(os.Args[1:], " ")})
+				}
 			} else {
 				stats["acc_rejected"]++
 			}
@@ -287,10 +301,109 @@ func cmdCheckCases(args []string) {
 	}
 	b.WriteString("].\n")
 	fmt.Fprintf(&b, "Definition %s_acc_M := Eval vm_compute in acc_mismatches geom_tab %s_acc.\nPrint %s_acc_M.\n", *name, *name, *name)
+	// doCheck in a directory with fail files: garbage, other versions, recordings of passing / invalid /
+	// failing runs of the same property (whole, pruned, truncated), random words
+	if *nf > 0 {
+		fmt.Fprintf(&b, "Definition %s_dcf : list dcf_case := [\n", *name)
+		first = true
+		cwd, _ := os.Getwd()
+		for i := 0; i < *nf; i++ {
+			r := &Rng{s: *seed*9200023 + uint64(i)}
+			pf2 := pf
+			if r.chance(60) {
+				pf2.Fail += 3
+			}
+			p := GenProgram(r, pf2)
+			checks := pick(r, 1, 2, 3, 5)
+			base := r.next() | 1
+			dir, err := os.MkdirTemp("", "verif-dcf-")
+			if err != nil {
+				die("%v", err)
+			}
+			ffdir := filepath.Join(dir, "testdata", "rapid", "T")
+			_ = os.MkdirAll(ffdir, 0o755)
+			var scratch []*Run
+			pre := p.PropMulti(&scratch)
+			nfiles := r.intn(5)
+			var coqFiles []string
+			for k := 0; k < nfiles; k++ {
+				fn := filepath.Join(ffdir, fmt.Sprintf("T-%02d.fail", k))
+				var buf []uint64
+				switch r.intn(6) {
+				case 0:
+					for j := r.intn(6); j > 0; j-- {
+						buf = append(buf, word(r))
+					}
+				default:
+					_, rec := rapid.VerifRunSeed(nil, r.next(), false, pre)
+					if r.chance(50) {
+						rec = rapid.VerifPrune(rec)
+					}
+					buf = append(buf, rec.Data...)
+					if r.chance(15) && len(buf) > 0 {
+						buf = buf[:r.intn(len(buf))]
+					}
+				}
+				switch c := r.intn(10); {
+				case c < 2:
+					junk := pick(r, "", "garbage", "# only a comment\n", rapid.VerifRapidVersion()+"#\n", rapid.VerifRapidVersion()+"#12\n0xzz\n", "v1#2#3\n")
+					_ = os.WriteFile(fn, []byte(junk), 0o644)
+					coqFiles = append(coqFiles, "LErr")
+					stats["dcf_file_unparsable"]++
+				case c < 4:
+					_ = rapid.VerifSaveFailFile(fn, "v0.0.1", []byte("old output\n"), r.next(), buf)
+					coqFiles = append(coqFiles, "LFile false "+wordsCoq(buf))
+					stats["dcf_file_other_version"]++
+				default:
+					_ = rapid.VerifSaveFailFile(fn, rapid.VerifRapidVersion(), []byte("output\nlines\n"), r.next(), buf)
+					coqFiles = append(coqFiles, "LFile true "+wordsCoq(buf))
+					stats["dcf_file_current_version"]++
+				}
+			}
+			old := setFlags(checks, base, 0, true)
+			tb := &recTB{name: "T"}
+			var runs []*Run
+			var res rapid.VerifCheckResult
+			_ = os.Chdir(dir)
+			esc := runTB(func() { res = rapid.VerifDoCheck(tb, checks, base, "", true, p.PropMulti(&runs)) })
+			_ = os.Chdir(cwd)
+			rapid.VerifSetFlags(old)
+			_ = os.RemoveAll(dir)
+			if esc != nil {
+				stats["escaped_panic"]++
+				continue
+			}
+			from := "None"
+			if res.FailFile != "" {
+				var idx int
+				if _, err := fmt.Sscanf(filepath.Base(res.FailFile), "T-%d.fail", &idx); err == nil {
+					from = fmt.Sprintf("(Some %d%%nat)", idx)
+				}
+				stats["dcf_reproduced_from_file"]++
+			} else if res.Err1.Kind != "" || res.Err2.Kind != "" {
+				stats["dcf_failed_in_random_phase"]++
+			} else {
+				stats["dcf_pass"]++
+			}
+			stats["dcf_cases"]++
+			invs := make([]string, len(runs))
+			for j, rr := range runs {
+				invs[j] = eventsCoq(rr)
+			}
+			if !first {
+				b.WriteString(";\n")
+			}
+			first = false
+			fmt.Fprintf(&b, "  mkDcfCase %d %s %d %d [%s] %d %d %d %s %s %s [%s] %s", i, p.Root.coq(), checks, base, strings.Join(coqFiles, "; "),
+				res.Valid, res.Invalid, res.Seed, wordsCoq(res.Buf), oresCoq(res.Err1), oresCoq(res.Err2), strings.Join(invs, "; "), from)
+		}
+		b.WriteString("].\n")
+		fmt.Fprintf(&b, "Definition %s_dcf_M := Eval vm_compute in dcf_mismatches geom_tab %s_dcf.\nPrint %s_dcf_M.\n", *name, *name, *name)
+	}
 	if err := os.WriteFile(*out, []byte(b.String()), 0644); err != nil {
 		die("%v", err)
 	}
-	js, _ := json.Marshal(map[string]any{"stats": stats, "samples": samples})
+	js, _ := json.Marshal(map[string]any{"stats": stats, "samples": samples, "failures": accFails})
 	fmt.Println(string(js))
 }
 
@@ -382,6 +495,32 @@ func cmdCheckOracle(args []string) {
 	add := func(prop, what string, p *Program, checks int, sd uint64, sh time.Duration, detail string, idx int) {
 		fails = append(fails, oracleFailure{prop, what, p.Root.coq(), checks, sd, sh.String(), detail, *seed, idx, *prof})
 	}
+	// one very large falsifying test case (several hundred thousand recorded blocks): found, reproduced, reported
+	if *only < 0 || *only == 900000 {
+		gbig := rapid.SliceOfN(rapid.Uint16(), 50000, 60000)
+		lastLen := -1
+		prop := func(t *rapid.T) {
+			s := gbig.Draw(t, "s")
+			lastLen = len(s)
+			if len(s) >= 50000 {
+				t.Fatalf("big slice")
+			}
+		}
+		old := setFlags(3, *seed|1, 200*time.Millisecond, true)
+		tb := &recTB{name: "T"}
+		esc := runTB(func() { rapid.Check(tb, prop) })
+		rapid.VerifSetFlags(old)
+		verdict, _, _, msg, _ := classifyTB(tb)
+		stats["big_case_runs"]++
+		if esc != nil || verdict != "failed" || !strings.Contains(msg, "big slice") || lastLen < 50000 {
+			what := "a deterministic property was called flaky"
+			if verdict != "flaky" {
+				what = "a falsifying test case of several hundred thousand blocks is not reported as the failure it is"
+			}
+			fails = append(fails, oracleFailure{"C01", what, "SliceOfN(Uint16(),50000,60000) then Fatalf", 3, *seed | 1, "200ms",
+				fmt.Sprintf("verdict=%s msg=%q escaped=%v final len=%d errors=%q", verdict, msg, esc, lastLen, tb.Errors), *seed, 900000, *prof})
+		}
+	}
 	for i := 0; i < *n; i++ {
 		if *only >= 0 && i != *only {
 			continue
@@ -395,6 +534,42 @@ func cmdCheckOracle(args []string) {
 		shd := time.Duration(*shrinkMs) * time.Millisecond
 		if *shrinkUs > 0 {
 			shd = time.Duration(*shrinkUs) * time.Microsecond
+		}
+		// isolation: with test cases that skip before drawing anything in between (a stateful wrapper: the
+		// model cannot express it), the failing case findBug reports runs on the bitstream of its own seed
+		if i%3 == 0 {
+			cnt := 0
+			skipAt := map[int]bool{}
+			for k := 1 + r.intn(3); k > 0; k-- {
+				skipAt[r.intn(6)] = true
+			}
+			var runsW []*Run
+			inner := p.PropMulti(&runsW)
+			wrapped := func(t *rapid.T) {
+				c := cnt
+				cnt++
+				if skipAt[c] {
+					t.Skip("stateful skip before any draw")
+				}
+				inner(t)
+			}
+			old := setFlags(checks, base, 0, true)
+			var fe rapid.VerifError
+			var fseed uint64
+			esc := runTB(func() { _, _, _, fseed, fe = rapid.VerifFindBug(&recTB{name: "T"}, checks, base, wrapped) })
+			rapid.VerifSetFlags(old)
+			stats["isolation_runs"]++
+			if esc == nil && (fe.Kind == "stop" || fe.Kind == "panic") && len(runsW) > 0 {
+				run2 := NewRun()
+				e2 := rapid.VerifRunSeedNoPersist(nil, fseed, p.Prop(&run2))
+				last := runsW[len(runsW)-1]
+				stats["isolation_compared"]++
+				if oresCoq(fe) != oresCoq(e2) || runEndedHow(last) != runEndedHow(run2) {
+					what := "a test case did not run on the bitstream of its own seed: running the reported seed alone gives another test case"
+					add("C11", what, p, checks, base, 0, fmt.Sprintf("skips at %v; in run: %s %s; alone on seed %d: %s %s", skipAt, oresCoq(fe), runEndedHow(last), fseed, oresCoq(e2), runEndedHow(run2)), i)
+					add("C07", what, p, checks, base, 0, fmt.Sprintf("seed %d", fseed), i)
+				}
+			}
 		}
 		for _, sh := range []time.Duration{0, shd} {
 			o := RunCheck(p, "T", checks, base, sh)
@@ -441,6 +616,8 @@ func cmdCheckOracle(args []string) {
 				}
 			case "flaky":
 				add("C01", "a deterministic property was called flaky", p, checks, base, sh, strings.Join(o.TB.Errors, "\n"), i)
+				// "flaky" means: the seed findBug returned for the failing case did not reproduce it in doCheck's own re-run
+				add("C07", "the seed of the failing case does not reproduce it (Check's own re-run with that seed ended differently: 'flaky')", p, checks, base, sh, strings.Join(o.TB.Errors, "\n"), i)
 			case "failed", "panic":
 				if !anySignal && (reUser.MatchString(o.Msg) || strings.Contains(o.Msg, "called")) {
 					add("C11", "a failure was reported although no invocation signalled one", p, checks, base, sh, o.Msg, i)
